@@ -806,6 +806,8 @@ class Interp:
             path = tg[1:]
             for p in path[:-1]:
                 o = o.fields.get(p)
+                if isinstance(o, VOpt):
+                    o = o.inner       # Optional[object]: the fields of the object, if it is there
                 if not isinstance(o, VObj):
                     return
             cur = o.fields.get(path[-1])
